@@ -7,9 +7,10 @@ import tomlw
 import vp
 
 ENV_NAMES = [b"FOO", b"PATH", b"lower", b"with space", b"UNI\xc3\xa9", b"\xff\xfe", b".hidden", b"A=B", b"dot.ted", b"NL\nNAME", b"-dash", b"x" * 100]
-ENV_VALUES = [b"", b"v", b"line1\nline2\n", b"  padded  ", b"\n", b"trailing\n\n", b"caf\xc3\xa9 \xe6\x97\xa5\xe6\x9c\xac", b"a=b", b"$(id)", b"x" * 5000, b"\ttab"]
+ENV_VALUES = [b"\xef\xbb\xbfbom-first", b"\xef\xbb\xbf", b"mid\xef\xbb\xbfbom", b"", b"v", b"line1\nline2\n", b"  padded  ", b"\n", b"trailing\n\n", b"caf\xc3\xa9 \xe6\x97\xa5\xe6\x9c\xac", b"a=b", b"$(id)", b"x" * 5000, b"\ttab"]
 BAD_UTF8 = [b"\xff\xfe", b"ok\x80", b"\xc3"]
-DIRNAMES = ["plain", "with space", "café", "日本", "a.b-c_d"]
+DIRNAMES = ["plain", "with space", "café", "日本", "a.b-c_d", "plain", "with space", "café", "日本", "a.b-c_d",
+            "bad\udcff", "\udcc3(é"]      # (surrogateescape spelling of) directory names that are not valid UTF-8: legal paths
 
 
 def gen_case(r, idx):
@@ -77,10 +78,10 @@ def materialise(lay, c):
         if c["bp_metadata"] is not None:
             d["metadata"] = c["bp_metadata"]
         f.write(tomlw.selfcheck(d))
-    envdir = os.path.join(lay.platform.encode(), b"env")
+    envdir = os.path.join(os.fsencode(lay.platform), b"env")
     if c["env_dir"]:
         os.makedirs(envdir)
-        tgt = os.path.join(lay.root.encode(), b"targets")
+        tgt = os.path.join(os.fsencode(lay.root), b"targets")
         os.makedirs(tgt)
         for i, (name, kind, val) in enumerate(c["env"]):
             p = os.path.join(envdir, name)
@@ -144,6 +145,9 @@ def materialise(lay, c):
 def run_case(base, c, sh):
     root = os.path.join(base, c["dirname"], "c%d" % c["idx"])
     lay = phase.Layout(root)
+    if any(0xDC80 <= ord(ch) <= 0xDCFF for ch in root):
+        # (the buildpack's own directory stays at a UTF-8 path: CNB_BUILDPACK_DIR is not what these cases are about)
+        lay.bp = os.path.join(base, "ctl-%d" % c["idx"], "bp")
     try:
         materialise(lay, c)
         bp_given = lay.bp
@@ -162,12 +166,18 @@ def run_case(base, c, sh):
             # non-UTF-8 value: passed as bytes
             env_b[c["bad_target"].encode()] = b"\xff\xfe"
             del env[c["bad_target"]]
+        nonutf = any(0xDC80 <= ord(ch) <= 0xDCFF for ch in root)
+        if nonutf:
+            # the harness' own control files live outside the oddly named directory (their paths travel inside a JSON document)
+            ctl = os.path.join(base, "ctl-%d" % c["idx"])
+            os.makedirs(ctl, exist_ok=True)
+            lay.marker, lay.dump, lay.script = os.path.join(ctl, "marker"), os.path.join(ctl, "dump.json"), os.path.join(ctl, "script.json")
         script = {"marker": lay.marker, "dump": lay.dump}
         args = lay.build_args() if c["phase"] == "build" else lay.detect_args()
-        full_env = {k.encode(): v.encode() for k, v in env.items()}
+        full_env = {k.encode(): os.fsencode(v) for k, v in env.items()}
         full_env.update(env_b)
         full_env[b"PATH"] = b"/usr/bin:/bin"
-        full_env[b"VPBP_SCRIPT"] = lay.script.encode()
+        full_env[b"VPBP_SCRIPT"] = os.fsencode(lay.script)
         with open(lay.script, "w") as f:
             json.dump(script, f)
         import subprocess
@@ -180,6 +190,25 @@ def run_case(base, c, sh):
         case["bp_metadata"] = repr(c["bp_metadata"])
         case["plan"] = repr(c["plan"])
         case["store_md"] = repr(c["store_md"])
+        if nonutf:
+            # every path the platform hands over is a legal path that is not valid UTF-8: the phase either refuses to run (no context,
+            # non-zero) or carries those paths byte for byte - and then everything else must be right too (checked below)
+            dumped = os.path.exists(lay.dump)
+            if status != 0 and not dumped:
+                if len([m for m in marker if m.startswith("on_error")]) > 1:
+                    sh.violation("error-not-reported", "%s under a non-UTF-8 directory: on_error ran %r" % (c["phase"], marker), case)
+                else:
+                    sh.nontrivial.add(("non-utf8-dir-refused", c["phase"]))
+                return
+            got = json.load(open(lay.dump)) if dumped else {}
+            want_hex = {"app_dir_hex": os.fsencode(lay.app).hex()}
+            if c["phase"] == "build":
+                want_hex["layers_dir_hex"] = os.fsencode(lay.layers).hex()
+            bad = {k: got.get(k) for k, v in want_hex.items() if got.get(k) != v}
+            if status != 0 or bad:
+                sh.violation("non-utf8-dir-altered", "%s under a directory whose name is not valid UTF-8 (%r): exit %d, the context carries %r instead of the bytes given (%r)"
+                             % (c["phase"], os.fsencode(root), status, bad, {k: want_hex[k] for k in bad}), case)
+                return
         bad_env_file = [n for n, k, _ in c["env"] if k == "file-bad-utf8"]
         must_fail = []
         if bad_env_file:
@@ -232,6 +261,10 @@ def run_case(base, c, sh):
         if got["target"] != want_t:
             sh.violation("target", "%s: target in the context %r, environment says %r" % (what, got["target"], want_t), case)
             return
+        if nonutf:
+            got["app_dir"], got["buildpack_dir"] = os.fsdecode(bytes.fromhex(got["app_dir_hex"])), os.fsdecode(bytes.fromhex(got["buildpack_dir_hex"]))
+            if "layers_dir_hex" in got:
+                got["layers_dir"] = os.fsdecode(bytes.fromhex(got["layers_dir_hex"]))
         if got["app_dir"] != lay.app or got["buildpack_dir"] != bp_given or (c["phase"] == "build" and got["layers_dir"] != lay.layers):
             sh.violation("dirs", "%s: directories in the context: app %r, buildpack %r (CNB_BUILDPACK_DIR was %r), layers %r" % (what, got["app_dir"], got["buildpack_dir"], bp_given, got.get("layers_dir")), case)
             return
@@ -259,6 +292,7 @@ def run_case(base, c, sh):
                    "observed": "context dump equals the generated inputs field by field"}, cap=1)
     finally:
         vp.rmtree(os.path.join(base, c["dirname"], "c%d" % c["idx"]))
+        vp.rmtree(os.path.join(base, "ctl-%d" % c["idx"]))
 
 
 def shard_run(arg):
